@@ -31,7 +31,7 @@ def wspecs(rng, n):
         r = rng.random()
         t = rng.choice("01")
         if r < 0.4:
-            p = rng.choice(["", "TREZOR", "é", "pass phrase"])
+            p = rng.choice(["", "TREZOR", "é", "pass phrase", " lead", "trail ", "\ttab\n", "  "])
             out.append("mn:%s:%s:%s:%s:%s" % (sx(MN), sx(MN), sx(p), sx(nf(p)), t))
         elif r < 0.7:
             e = bytes(rng.getrandbits(8) for _ in range(rng.choice([16, 24, 32]))).hex()
@@ -66,13 +66,15 @@ def fp_leading_zero_seeds(rng, n):
     return out
 
 
-def cases(rng, tier):
+def _cases_core(rng, tier):
     n = 14 if tier == "quick" else 600
     for sd in fp_leading_zero_seeds(rng, 2 if tier == "quick" else 20):
         yield "wasabi seedb:%s:%s" % (hx(sd), rng.choice("01")), "wasabi-fp-leading-zero"
     for ln in range(0, 9):
         w = wspecs(rng, 1)[0]
         yield "generate %s %d %d %d" % (w, rng.choice([0, 1]), 3, 3 + ln), "generate-rows-%d" % ln
+    for p in (" lead", "trail ", "\ttab\n"):       # the passphrase is used and echoed verbatim
+        yield "generate mn:%s:%s:%s:%s:%s 0 0 1" % (sx(MN), sx(MN), sx(p), sx(nf(p)), rng.choice("01")), "passphrase-edge-whitespace"
     for _ in range(2 if tier == "quick" else 40):
         w = wspecs(rng, 1)[0]
         ops = []
@@ -289,3 +291,9 @@ def oracle(line, out):
 
 
 known_match = common.no_known
+
+
+def cases(rng, tier):
+    from . import extra
+    yield from _cases_core(rng, tier)
+    yield from extra.cases_for('papertext', rng, tier)
